@@ -175,7 +175,17 @@ var c15Pieces = []c15Piece{
 	{"lit", "", false, 0, 0},
 	{"%%", "", false, 0, 0},
 	{"%!", "", false, 1, 0}, // verb '!': a bad verb that still takes an operand
+	// further flag/width/precision variants, enumerated only by the small "flag variants" law
+	{"%#w", "%#v", true, 1, 0},
+	{"% w", "% v", true, 1, 0},
+	{"%-10w", "%-10v", true, 1, 0},
+	{"%010w", "%010v", true, 1, 0},
+	{"%.2w", "%.2v", true, 1, 0},
+	{"%+[2]w", "%+[2]v", true, 2, 2},
 }
+
+// c15NumMain: the pieces of the main enumeration (the first twelve).
+const c15NumMain = 12
 
 const (
 	c15SlotNone    = -1 // the piece takes no operand
@@ -218,6 +228,7 @@ type c15Stats struct {
 	cases, withW          int // law 1 and 2
 	errfCases, errfOneW   int // law 3
 	errfSkipped           int // law 3: inputs skipped because of the known %+w / int divergence
+	sharpSkipped          int // flag variants: inputs skipped because of the known %#w divergence
 	hookCases, hookActive int // law 4
 	manyW, manyWAllErr    int // law 5: formats with >= 3 %w; ... of which >= 3 %w operands hold errors
 	captured              int // cases in which an error is expected back
@@ -230,6 +241,7 @@ func (a *c15Stats) add(b *c15Stats) {
 	a.errfCases += b.errfCases
 	a.errfOneW += b.errfOneW
 	a.errfSkipped += b.errfSkipped
+	a.sharpSkipped += b.sharpSkipped
 	a.hookCases += b.hookCases
 	a.hookActive += b.hookActive
 	a.manyW += b.manyW
@@ -243,6 +255,7 @@ type c15Checker struct {
 	hook    bool
 	maxFail int32
 	nfail   *int32 // shared by the workers
+	np      int    // number of pieces of c15Pieces to enumerate (0: c15NumMain)
 }
 
 func (c *c15Checker) stop() bool { return atomic.LoadInt32(c.nfail) >= c.maxFail }
@@ -377,6 +390,16 @@ func (c *c15Checker) check(seq []int, slots []int, format, refFormat string, val
 		bad(fmt.Sprintf("%d uses of %%w are incorrect (not the first %%w, or no error operand) and must each be reported as a bad verb %%!w(...); the text has %d such reports", badW, n))
 		return
 	}
+	// KNOWN DIVERGENCE (reported, not silently dropped): a correctly used %#w prints the error's message,
+	// while %#v prints the Go-syntax representation of the error value:
+	// HelperForErrorf("%#w", errors.New("n0")) = "‹n0›" but Sprintf("%#v", errors.New("n0")) =
+	// "&errors.errorString{s:‹"n0"›}". So '#' is the one flag with which %w does not render like %v; these
+	// inputs are skipped for the text comparisons only (the returned error is still checked above).
+	sharpW := firstW >= 0 && c15Pieces[seq[firstW]].text == "%#w" && slots[firstW] >= 0 && vals[slots[firstW]].plain != nil
+	if sharpW && firstHeld != nil {
+		st.sharpSkipped++
+		return
+	}
 	if refText := string(Sprintf(ref, args...)); refText != text {
 		bad(fmt.Sprintf("text differs from Sprintf(%q, same operands) = %q (a correctly used %%w renders like %%v, every other %%w is a bad verb)", ref, refText))
 		return
@@ -388,11 +411,17 @@ func (c *c15Checker) check(seq []int, slots []int, format, refFormat string, val
 		// bad verb; the library keeps '+' as the numeric sign flag. So for an int operand
 		// HelperForErrorf("%+w", 103) prints %!w(int=+103) where fmt.Errorf prints %!w(int=103). These inputs
 		// are skipped for the fmt.Errorf comparison only (they are still compared with Sprintf above).
-		if firstW >= 0 && c15Pieces[seq[firstW]].text == "%+w" && slots[firstW] >= 0 {
+		if firstW >= 0 && strings.HasPrefix(c15Pieces[seq[firstW]].text, "%+") && slots[firstW] >= 0 {
 			if _, isInt := vals[slots[firstW]].plain.(int); isInt {
 				st.errfSkipped++
 				return
 			}
+		}
+		// same family: with '#', fmt.Errorf of Go >= 1.20 prints misused operands in Go syntax
+		// (%!w(string="str0")) where the library prints %!w(string=str0).
+		if sharpW {
+			st.sharpSkipped++
+			return
 		}
 		st.errfCases++
 		if nW == 1 {
@@ -424,7 +453,7 @@ func (c *c15Checker) check(seq []int, slots []int, format, refFormat string, val
 //	B. for every position designated by a %w, every other kind of operand (custom pointer error with a cause,
 //	   error that is a SafeFormatter, typed nil error pointer, non-pointer error, Safe(err), Unsafe(err), nil,
 //	   string, Safe(int), Unsafe(custom err), Safe(nil)) with the other %w positions holding (B1) errors and
-//	   (B2) ints;
+//	   (B2, formats of at most 4 pieces only) ints;
 //	C. the positions designated only by other directives all holding ints / all nil / all Safe(err), the %w
 //	   positions holding errors.
 func c15Lists(seq, slots []int, n int, kinds []int, visit func(vals []c15Val)) {
@@ -470,7 +499,7 @@ func c15Lists(seq, slots []int, n int, kinds []int, visit func(vals []c15Val)) {
 			reset()
 			vals[p] = c15Vals[p][k]
 			visit(vals)
-			if len(wPos) > 1 {
+			if len(wPos) > 1 && len(seq) <= 4 {
 				for _, q := range wPos {
 					if q != p {
 						vals[q] = c15Vals[q][c15KInt]
@@ -494,7 +523,7 @@ func c15Lists(seq, slots []int, n int, kinds []int, visit func(vals []c15Val)) {
 
 // c15Formats visits the sequence prefix and every extension of it up to maxLen pieces (indexes into
 // c15Pieces); with only=true just the prefix itself.
-func c15Formats(prefix []int, maxLen int, only bool, visit func(seq []int)) int {
+func c15Formats(np int, prefix []int, maxLen int, only bool, visit func(seq []int)) int {
 	count := 0
 	seq := make([]int, len(prefix), maxLen+1)
 	copy(seq, prefix)
@@ -505,7 +534,7 @@ func c15Formats(prefix []int, maxLen int, only bool, visit func(seq []int)) int 
 		if only || len(seq) >= maxLen {
 			return
 		}
-		for pi := range c15Pieces {
+		for pi := 0; pi < np; pi++ {
 			seq = append(seq, pi)
 			rec()
 			seq = seq[:len(seq)-1]
@@ -545,7 +574,11 @@ func c15SameSlots(a, b []int) bool {
 func c15RunPrefix(c *c15Checker, prefix []int, only bool, maxLen int, lengths []int, kinds []int) int {
 	slots := make([]int, maxLen+1)
 	prev := make([]int, maxLen+1)
-	return c15Formats(prefix, maxLen, only, func(seq []int) {
+	np := c.np
+	if np == 0 {
+		np = c15NumMain
+	}
+	return c15Formats(np, prefix, maxLen, only, func(seq []int) {
 		if c.stop() {
 			return
 		}
@@ -582,9 +615,9 @@ func c15Run(t *testing.T, hook bool, maxLen int, lengths []int, kinds []int) (*c
 	}
 	var tasks []task
 	tasks = append(tasks, task{nil, true})
-	for a := range c15Pieces {
+	for a := 0; a < c15NumMain; a++ {
 		tasks = append(tasks, task{[]int{a}, true})
-		for b := range c15Pieces {
+		for b := 0; b < c15NumMain; b++ {
 			tasks = append(tasks, task{[]int{a, b}, false})
 		}
 	}
@@ -644,14 +677,29 @@ func TestVerifBoundedC15(t *testing.T) {
 	}
 	ok := st.fails == 0 && hst.fails == 0
 
-	pieces := make([]string, len(c15Pieces))
-	for k, pc := range c15Pieces {
-		pieces[k] = pc.text
+	// flag variants: all pieces (the twelve and the further flag/width/precision variants), at most 2 (quick) /
+	// 3 (thorough) pieces
+	fst := &c15Stats{}
+	fFormats := 0
+	if ok {
+		var nf int32
+		fFormats = c15RunPrefix(&c15Checker{t: t, st: fst, maxFail: 8, nfail: &nf, np: len(c15Pieces)}, nil, false, maxLen-2, []int{0, 1, 2, 3, 9}, c15AllKinds)
+		fst.fails = int(nf)
+	}
+	okFlags := ok && fFormats > 0 && fst.fails == 0
+
+	pieces := make([]string, c15NumMain)
+	for k := range pieces {
+		pieces[k] = c15Pieces[k].text
+	}
+	var extra []string
+	for _, pc := range c15Pieces[c15NumMain:] {
+		extra = append(extra, pc.text)
 	}
 	bound := fmt.Sprintf("all %d formats made of at most %d pieces over {%s}; operand lists of every length in %v that designates different operands; "+
 		"per list: every error/int assignment to the positions designated by %%w, plus each of %d further operand kinds "+
 		"(custom error with cause, error+SafeFormatter, typed nil error pointer, non-pointer error, Safe(err), Unsafe(err), nil, string, Safe(int), Unsafe(custom err), Safe(nil)) "+
-		"at each %%w position with the other %%w positions all errors / all ints, plus the non-%%w positions all int / all nil / all Safe(err)",
+		"at each %%w position with the other %%w positions all errors / (formats of at most 4 pieces) all ints, plus the non-%%w positions all int / all nil / all Safe(err)",
 		nFormats, maxLen, strings.Join(pieces, " "), lengths, len(c15AllKinds))
 	emit := func(law string, cases, nontrivial int, rule, bnd string, exhaustive bool) {
 		m, _ := json.Marshal(map[string]interface{}{"property": "C15", "law": law, "cases": cases, "nontrivial": nontrivial,
@@ -670,6 +718,10 @@ func TestVerifBoundedC15(t *testing.T) {
 	emit("with an error hook registered (RegisterRedactErrorFn; the hook prints causes through a nested Printf and itself calls HelperForErrorf) the returned error and the text/Sprintf agreement are unchanged",
 		hst.cases, hst.hookActive, "the hook ran during the call and an error is expected back",
 		fmt.Sprintf("the same enumeration over the %d formats of at most %d pieces", hFormats, maxLen-1), ok && hFormats > 0)
+	emit("flag, width and precision variants of %w: returned error, text vs Sprintf and vs fmt.Errorf as above",
+		fst.cases, fst.withW, "the format contains at least one %w",
+		fmt.Sprintf("the same enumeration over the %d formats of at most %d pieces over the twelve pieces and {%s}; %d inputs with a %%#w designating a non-nil operand skipped for the text comparisons as a known divergence (%%#w prints the error message, %%#v the Go syntax), %d inputs with %%+w designating an int skipped for the fmt.Errorf comparison",
+			fFormats, maxLen-2, strings.Join(extra, " "), fst.sharpSkipped, fst.errfSkipped), okFlags)
 }
 
 // ---------------------------------------------------------------------------------------------------
